@@ -297,6 +297,7 @@ func c07(p *model.Prog, r *report.Result) {
 	c07r910(p, r)
 	c07r11(p, r)
 	c07r12(p, r, "C07.R12")
+	w5FeedAvSize(p, r, "C07.R13")
 
 	// ---------------------------------------------------------------- R4
 	r.Rule("C07.R4", "nothing that outlives the ingest callbacks keeps a reference into the RTP / PS / AvPacket buffer handed in (Group.OnAvPacket, Group.OnRtpPacket, CustomizePubSessionContext.FeedAvPacket, PsUnpacker.FeedRtpPacket, BaseInSession.handleRtpPacket): queued packets and cached parameter sets are copies")
